@@ -157,6 +157,12 @@ def variants(base, base_res, tier, r):
             wrap = (j % 7 == 3)
             out.append(mk([{"kind": "cancel-op", "at_event": k, "style": style, "pick": (j // 2) % 3}],
                           post_sends=300 if wrap else 2))
+        # the gateway goes and the caller gives up in the same loop iteration, in either order
+        for j, k in enumerate(idxs if tier != "quick" else idxs[::2]):
+            lf = {"kind": "lose", "mode": "eof" if j % 2 else "oserror", "at_event": k,
+                  "return_after_us": ret_delay(), "open_failures": 0}
+            cf = {"kind": "cancel-op", "at_event": k, "style": "cancel" if j % 3 else "timeout", "pick": 0}
+            out.append(mk([lf, cf] if j % 4 < 2 else [cf, lf]))
         # two faults in one run: loss + cancel, cancel + cancel, loss + later loss
         all_idx = list(range(max(first - 2, 0), n_events))
         for _ in range(10 if tier == "quick" else 60):
@@ -507,11 +513,28 @@ def judge(rr, ctx):
                 rr.world.probe("organic-late-confirm")
                 break
 
+    conf_only = ""
+    lc = [f for f in faults if f["kind"] == "late-confirm"]
+    if not hid and len(faults) == 1 and lc and lc[0]["send_idx"] < len(rr.dev.sends):
+        # the late confirmation belongs to a command that expects no answer and whose frame no later
+        # command repeats: all that is left over is a confirmation the drivers can tell from their own
+        # (it names another frame) - the arrival-order limitation does not apply, so a site of its own
+        s0 = rr.dev.sends[lc[0]["send_idx"]]
+        if s0.get("bits") is not None and cmds.mk_cmd([s0["bits"], s0["value"], 0]).response is None \
+                and not any((s_.get("bits"), s_.get("value")) == (s0["bits"], s0["value"])
+                            for s_ in rr.dev.sends[lc[0]["send_idx"] + 1:]) and drv == "luba" \
+                and not any(s_ is not s0 and (s_.get("conf_arrival_us") is None
+                                              or s_["conf_arrival_us"] - s_["t_us"] > 0.8 * CONF_TO[drv] * 1e6)
+                            for s_ in rr.dev.sends if "t_us" in s_):
+            conf_only = "/only-a-foreign-confirmation-left-over"
+            rr.world.probe("late-confirmation-of-an-answerless-command")
+
     def V(clause, detail, site=None):
         # a foreign answer that had reached the host before the victim's
         # command was written could have been discarded at that moment: not the
         # arrival-order limitation, so it gets a site of its own
         stale = "/stale-before-write" if isinstance(site, str) and site.endswith("/stale-before-write") else ""
+        stale = stale or conf_only
         if phase["post"] and clause in ("answer-lost", "answer-of-other-command", "wrong-answer",
                                         "framing-error-not-reported"):
             # long after the faults have stopped: recovery is not clean
@@ -556,6 +579,12 @@ def judge(rr, ctx):
         if rec.status == "livelock":
             V("send-spins-without-yielding", "unit %s: the driver loops around a failing I/O call without ever "
               "returning to the event loop" % u, site="exceptions-%s" % ("on" if exc_on else "off"))
+            continue
+        if rec.status == "raised" and rec.cancel_requested and not rec.op.get("unsupported") \
+                and not isinstance(rec.exc, (CommunicationError, TimeoutError, asyncio.CancelledError)):
+            # a caller that gives up gets its cancellation (or, if the gateway went at the same moment,
+            # the loss) - not an internal error of the driver
+            V("cancelled-send-raised-other", "unit %s: cancelled, ended with %r" % (u, rec.exc), site=type(rec.exc).__name__)
             continue
         if rec.status == "cancelled" or (rec.status in ("timeout", "raised") and rec.cancel_requested):
             continue
